@@ -111,6 +111,7 @@ fn gen_c<C: Suite>(seed: u64, run: u64, tier: Tier) -> Scenario {
     let budget = p.range(0, 6) as usize;
     let mut fp = stream(seed, run, "faults");
     s.faults = gen_honest_faults(&mut fp, &s, budget, mask);
+    maybe_rng_alias(&mut s, seed, run, 12);
     s
 }
 
